@@ -77,7 +77,7 @@ func Harness_C05_append_only_and_wellformed() {
 			vm.Assert("C05.appended_archive_ends_with_trailer", newSegs[len(newSegs)-1].Kind == vm.SegTrailer)
 			vm.Assert("C05.appended_archive_starts_with_member", newSegs[0].Kind == vm.SegMember)
 		}
-		if err != nil && op != 3 && op != 14 && op != 2 && op != 15 {
+		if err != nil && op != 3 && op != 14 && op != 2 && op < 15 {
 			// a rejected call (precondition failure) appends nothing; calls that create first and then
 			// write (2, 3, 14) are excluded because their first half may legitimately have succeeded
 			vm.Assert("C05.rejected_call_appends_nothing", len(newSegs) == 0)
